@@ -209,3 +209,72 @@ Proof.
     + unfold train_row. rewrite Nat.eqb_refl. reflexivity.
     + intros s _ Hne. unfold train_row. destruct (Nat.eqb_spec s t); [contradiction|reflexivity].
 Qed.
+
+(* ------------------------------------------------------------------ *)
+(* A single class: [_find_prototypes] marks nothing, and the competition never writes the
+   prototype flags, so the trained model has no prototype at all. *)
+Section StatusFrame.
+  Context {W : Type}.
+  Variables (ltb : W -> W -> bool) (zero top : W).
+
+  Lemma seed_step_status st i :
+    n_status (snd (seed_step ltb zero top st i)) = n_status (snd st).
+  Proof.
+    destruct st as [h nd]. unfold seed_step.
+    destruct (nth i (n_status nd) false); reflexivity.
+  Qed.
+
+  Lemma fit_relax_status semi nl w p st q :
+    n_status (snd (fit_relax ltb top semi nl w p st q)) = n_status (snd st).
+  Proof.
+    destruct st as [h nd]. unfold fit_relax.
+    destruct (negb (Nat.eqb p q) && ltb (hcost_at top h p) (hcost_at top h q)); [|reflexivity].
+    destruct (ltb (wmax ltb (hcost_at top h p) (w p q)) (hcost_at top h q)); reflexivity.
+  Qed.
+
+  Lemma fold_status {A} (f : (A * @nodes W) -> nat -> (A * @nodes W)) l :
+    (forall st i, n_status (snd (f st i)) = n_status (snd st)) ->
+    forall st, n_status (snd (fold_left f l st)) = n_status (snd st).
+  Proof.
+    intros Hf. induction l as [|i l IH]; intros st; [reflexivity|].
+    cbn [fold_left]. rewrite IH. apply Hf.
+  Qed.
+
+  Lemma fit_loop_status semi nl w n : forall fuel h nd,
+    n_status (snd (fit_loop ltb top fuel n semi nl w h nd)) = n_status nd.
+  Proof.
+    induction fuel as [|f IH]; intros h nd; [reflexivity|].
+    cbn [fit_loop]. destruct (remove ltb top h) as [h1 [p|]]; [|reflexivity].
+    pose proof (fold_status (fit_relax ltb top semi nl w p) (seq 0 n)
+                  (fit_relax_status semi nl w p)
+                  (h1, mkNodes (upd (n_cost nd) p (hcost_at top h1 p)) (n_pred nd) (n_label nd)
+                         (n_plabel nd) (n_status nd) (n_relevant nd) (n_order nd ++ [p]))) as E.
+    destruct (fold_left (fit_relax ltb top semi nl w p) (seq 0 n) _) as [h2 nd2].
+    cbn [snd n_status] in E. rewrite IH. exact E.
+  Qed.
+
+  Lemma compete_status semi nl n w nd :
+    n_status (compete ltb zero top semi nl n w nd) = n_status nd.
+  Proof.
+    unfold compete.
+    pose proof (fold_status (seed_step ltb zero top) (seq 0 n) seed_step_status
+                  (h_init top n PMin, nd)) as E.
+    destruct (fold_left (seed_step ltb zero top) (seq 0 n) (h_init top n PMin, nd)) as [h nd1].
+    cbn [snd] in E. rewrite fit_loop_status. exact E.
+  Qed.
+End StatusFrame.
+
+Theorem sup_single_class_no_prototypes :
+  forall (zero top : Z) (n : nat) (w : nat -> nat -> Z) (labels : list nat),
+    1 <= n -> length labels = n ->
+    (forall p q, p < n -> q < n -> p <> q -> (w p q < top)%Z) ->
+    (forall a b, a < n -> b < n -> nth a labels 0 = nth b labels 0) ->
+    forall q, q < n -> nth q (n_status (sup_fit Z.ltb zero top labels w)) false = false.
+Proof.
+  intros zero top n w labels Hn Hlen Hb Hone q Hq.
+  unfold sup_fit. rewrite compete_status, Hlen.
+  destruct (nth q (n_status (find_prototypes Z.ltb top n w (nodes_init zero labels))) false) eqn:E;
+    [exfalso|reflexivity].
+  apply (init_prototypes_exact zero top n w labels Hn Hlen Hb q Hq) in E.
+  destruct E as (r & _ & Hr & Hne). apply Hne. apply Hone; assumption.
+Qed.
